@@ -48,7 +48,6 @@ theorem loop_diag_bound (text : List Nat) : ∀ (fuel : Nat) (s : List Nat) (pos
         injection h with h1 h2
         have e := countLF_take_le (c :: t) off
         omega
-      · simp at h
 
 open ChibiVerif.Gen.Literals
 
@@ -103,7 +102,6 @@ theorem strTok_progress (w : Bool) (s : List Nat) (q : Nat) : (strTok w s q).Pro
   unfold strTok
   split
   · trivial
-  · trivial
   · split
     · trivial
     · simp [Step.Progress]
@@ -111,7 +109,6 @@ theorem strTok_progress (w : Bool) (s : List Nat) (q : Nat) : (strTok w s q).Pro
 theorem chrTok_progress (s : List Nat) (q : Nat) : (chrTok s q).Progress := by
   unfold chrTok
   split
-  · trivial
   · trivial
   · split
     · trivial
@@ -176,7 +173,6 @@ theorem loop_no_fuel (text : List Nat) : ∀ (fuel : Nat) (s : List Nat) (pos li
         simp only [Step.Progress] at hp
         omega
       · simp
-      · simp
 
 
 theorem EndsLF_ne_nil {l : List Nat} (h : EndsLF l) : l ≠ [] := by
@@ -208,55 +204,27 @@ theorem EndsLF_drop {l : List Nat} (h : EndsLF l) (k : Nat) : l.drop k = [] ∨ 
         simp only [List.drop_succ_cons]
         exact ih (EndsLF_tail h)
 
-theorem idxLF_of_EndsLF {l : List Nat} (h : EndsLF l) : idxLF l ≠ none := by
-  induction l with
-  | nil => simp [EndsLF] at h
-  | cons c t ih =>
-    simp only [idxLF]
-    split
-    · simp
-    · rename_i hc
-      cases t with
-      | nil => simp [EndsLF] at h; exact absurd h hc
-      | cons y t' =>
-        have := ih (EndsLF_tail h)
-        cases hq : idxLF (y :: t') with
-        | none => exact absurd hq this
-        | some v => simp
-
 theorem getLast?_cons_ne {x : Nat} {l : List Nat} (h : l ≠ []) : (x :: l).getLast? = l.getLast? := by
   cases l with
   | nil => exact absurd rfl h
   | cons y t => simp [List.getLast?_cons_cons]
 
-theorem strEnd_over {l : List Nat} : strEnd l = .over → l.getLast? = some 92 := by
-  induction l using strEnd.induct with
-  | case1 => intro h; simp [strEnd] at h
-  | case2 t => intro h; unfold strEnd at h; simp at h
-  | case3 t _ => intro h; unfold strEnd at h; simp at h
-  | case4 _ _ => intro _; rfl
-  | case5 c t _ _ ih =>
-    intro h
-    unfold strEnd at h
-    simp (config := {decide := true}) only [if_neg, if_true] at h
-    cases hs : strEnd t with
-    | found k => rw [hs] at h; simp [StrEnd.shift] at h
-    | unclosed => rw [hs] at h; simp [StrEnd.shift] at h
-    | over =>
-      have h92 := ih hs
-      have hne : t ≠ [] := by intro e; subst e; simp at h92
-      rw [getLast?_cons_ne (List.cons_ne_nil _ _), getLast?_cons_ne hne]; exact h92
-  | case6 c t h1 h2 h3 ih =>
-    intro h
-    unfold strEnd at h
-    simp only [h1, h2, h3, if_false] at h
-    cases hs : strEnd t with
-    | found k => rw [hs] at h; simp [StrEnd.shift] at h
-    | unclosed => rw [hs] at h; simp [StrEnd.shift] at h
-    | over =>
-      have h92 := ih hs
-      have hne : t ≠ [] := by intro e; subst e; simp at h92
-      rw [getLast?_cons_ne hne]; exact h92
+/-- the scanner proper has no over-read outcome (repaired code): only the passes before it can produce one -/
+theorem loop_no_overread (text : List Nat) : ∀ (fuel : Nat) (s : List Nat) (pos line n : Nat) (w : Why),
+    loop text fuel s pos line n ≠ .overread w := by
+  intro fuel
+  induction fuel with
+  | zero => intro s pos line n w; simp [loop]
+  | succ f ih =>
+    intro s pos line n w
+    cases s with
+    | nil => simp [loop]
+    | cons c t =>
+      simp only [loop]
+      split
+      · exact ih _ _ _ _ _
+      · exact ih _ _ _ _ _
+      · simp
 
 theorem getLast?_drop_of_ne {l : List Nat} {k : Nat} (h : l.drop k ≠ []) : (l.drop k).getLast? = l.getLast? := by
   induction k generalizing l with
@@ -270,114 +238,6 @@ theorem getLast?_drop_of_ne {l : List Nat} {k : Nat} (h : l.drop k ≠ []) : (l.
       have : t ≠ [] := by intro e; subst e; simp at h
       exact (getLast?_cons_ne this).symm
 
-/-- a step on a text that ends in a newline never leaves the text -/
-def Step.Inside : Step → Prop
-  | .over _ => False
-  | _ => True
-
-theorem strTok_inside (w : Bool) (s : List Nat) (q : Nat) (h : EndsLF s) : (strTok w s q).Inside := by
-  unfold strTok
-  split
-  · rename_i ho
-    have h92 := strEnd_over ho
-    have hne : s.drop (q + 1) ≠ [] := by intro e; rw [e] at h92; simp at h92
-    rw [getLast?_drop_of_ne hne] at h92
-    rw [EndsLF] at h; rw [h] at h92; simp at h92
-  · trivial
-  · split <;> trivial
-
-theorem chrTok_inside (s : List Nat) (q : Nat) (h : EndsLF s) : (chrTok s q).Inside := by
-  unfold chrTok
-  split
-  · rename_i ho
-    exfalso
-    unfold chrFirst at ho
-    split at ho
-    · simp at ho
-    · rename_i c t hd
-      split at ho
-      · split at ho
-        · rename_i hc
-          -- the rest of the text is exactly `\`
-          have hne : s.drop (q + 1) ≠ [] := by rw [hd]; simp
-          have hl := getLast?_drop_of_ne hne
-          rw [hd] at hl
-          rename_i hc92
-          rw [EndsLF] at h; rw [h] at hl
-          simp [hc92] at hl
-        · repeat' split at ho
-          all_goals simp at ho
-      · split at ho <;> simp at ho
-  · trivial
-  · split <;> trivial
-
-theorem stepWord_inside (s : List Nat) : (stepWord s).Inside := by
-  unfold stepWord
-  repeat' split
-  all_goals trivial
-
-theorem stepChr_inside (c : Nat) (s : List Nat) (h : EndsLF s) : (stepChr c s).Inside := by
-  unfold stepChr
-  repeat' split
-  all_goals first | exact chrTok_inside _ _ h | exact stepWord_inside _
-
-theorem stepStr_inside (c : Nat) (s : List Nat) (h : EndsLF s) : (stepStr c s).Inside := by
-  unfold stepStr
-  repeat' split
-  all_goals first | exact strTok_inside _ _ _ h | exact stepChr_inside _ _ h
-
-theorem startsWith2 {a b c : Nat} {t : List Nat} (h : startsWith [a, b] (c :: t) = true) :
-    c = a ∧ ∃ t2, t = b :: t2 := by
-  cases t with
-  | nil => simp [startsWith, List.isPrefixOf] at h
-  | cons d t2 =>
-    simp [startsWith, List.isPrefixOf] at h
-    exact ⟨h.1.symm, t2, by rw [h.2]⟩
-
-theorem step_inside (c : Nat) (t : List Nat) (h : EndsLF (c :: t)) : (step (c :: t)).Inside := by
-  unfold step
-  split
-  · rename_i h0; cases h0
-  · rename_i c' t' heq
-    injection heq with h1 h2
-    subst h1 h2
-    split
-    · rename_i hsw
-      obtain ⟨hc, t2, ht⟩ := startsWith2 hsw
-      subst ht
-      have h2 : EndsLF t2 := by
-        cases t2 with
-        | nil => simp [EndsLF] at h
-        | cons y t3 => exact EndsLF_tail (EndsLF_tail h)
-      have := idxLF_of_EndsLF h2
-      simp only [List.drop_succ_cons, List.drop_zero]
-      split
-      · rename_i hn; exact absurd hn this
-      · trivial
-    · repeat' split
-      all_goals first | trivial | exact stepStr_inside _ _ h
-
-theorem loop_inside (text : List Nat) : ∀ (fuel : Nat) (s : List Nat) (pos line n : Nat) (w : Why),
-    s = [] ∨ EndsLF s → loop text fuel s pos line n ≠ .overread w := by
-  intro fuel
-  induction fuel with
-  | zero => intro s pos line n w _; simp [loop]
-  | succ f ih =>
-    intro s pos line n w hs
-    cases s with
-    | nil => simp [loop]
-    | cons c t =>
-      have he : EndsLF (c :: t) := by
-        rcases hs with h | h
-        · simp at h
-        · exact h
-      simp only [loop]
-      have hi := step_inside c t he
-      split
-      · exact ih _ _ _ _ _ (EndsLF_drop he _)
-      · exact ih _ _ _ _ _ (EndsLF_drop he _)
-      · simp
-      · rename_i w' heq; rw [heq] at hi; exact absurd hi (by simp [Step.Inside])
 theorem EndsLF_singleton : EndsLF [10] := rfl
 
 theorem readFile_ends (b : List Nat) : EndsLF (readFile b) := by
@@ -545,7 +405,7 @@ theorem convUCAux_ends : ∀ (fuel : Nat) (l : List Nat), l.length < fuel → En
       cases t with
       | nil => simp [readUC] at hc
       | cons y r => exact EndsLF_tail (EndsLF_tail he)
-    obtain ⟨r, hr, her⟩ := ih (by simp only [List.length_drop, List.length_cons] at *; omega) (drop_ucn_ends (by omega) ht hc.2)
+    obtain ⟨r, hr, her⟩ := ih (by simp only [List.length_drop, List.length_cons] at *; omega) (drop_ucn_ends (by omega) ht hc.2.1)
     refine ⟨encodeU (readUC t 4 0) ++ r, ?_, EndsLF_append her⟩
     unfold convUCAux
     simp only [if_true, hc, ne_eq, not_false_eq_true, and_self, hr, Except.map]
@@ -555,7 +415,7 @@ theorem convUCAux_ends : ∀ (fuel : Nat) (l : List Nat), l.length < fuel → En
       cases t with
       | nil => simp [readUC] at hc
       | cons y r => exact EndsLF_tail (EndsLF_tail he)
-    obtain ⟨r, hr, her⟩ := ih (by simp only [List.length_drop, List.length_cons] at *; omega) (drop_ucn_ends (by omega) ht hc.2)
+    obtain ⟨r, hr, her⟩ := ih (by simp only [List.length_drop, List.length_cons] at *; omega) (drop_ucn_ends (by omega) ht hc.2.1)
     refine ⟨encodeU (readUC t 8 0) ++ r, ?_, EndsLF_append her⟩
     unfold convUCAux
     simp only [if_true, hc, ne_eq, not_false_eq_true, and_self, hr, Except.map]
@@ -648,5 +508,159 @@ theorem text_lines (bytes : List Nat) (h : 0 ∉ bytes) :
   rw [cstr_id _ (readFile_nonul bytes h)]
   unfold rmBsNl
   rw [rmBsNlAux_count, canonNL_count, skipBOM_terminators]; rfl
+
+theorem hi_ne_lf (k y : BitVec 32) (hk : k[7] = true) : ((k ||| y).setWidth 8) ≠ 10#8 := by
+  intro h
+  have h7 := congrArg (fun b => b.getLsbD 7) h
+  simp at h7
+  rw [hk] at h7
+  exact absurd h7.1 (by decide)
+
+theorem encodeUtf8_no_lf (v : BitVec 32) (hv : v ≠ 10#32) : ∀ b ∈ encodeUtf8 v, b ≠ 10#8 := by
+  intro b hb
+  unfold encodeUtf8 at hb
+  split at hb
+  · rename_i hle
+    simp only [List.mem_singleton] at hb
+    subst hb
+    intro h
+    apply hv
+    have h1 : v.toNat ≤ 127 := by simpa [BitVec.le_def] using hle
+    have h2 := congrArg BitVec.toNat h
+    simp [BitVec.toNat_setWidth] at h2
+    apply BitVec.eq_of_toNat_eq
+    simp; omega
+  · split at hb
+    · simp only [List.mem_cons, List.not_mem_nil, or_false] at hb
+      rcases hb with e | e <;> subst e <;> exact hi_ne_lf _ _ (by decide)
+    · split at hb
+      · simp only [List.mem_cons, List.not_mem_nil, or_false] at hb
+        rcases hb with e | e | e <;> subst e <;> exact hi_ne_lf _ _ (by decide)
+      · simp only [List.mem_cons, List.not_mem_nil, or_false] at hb
+        rcases hb with e | e | e | e <;> subst e <;> exact hi_ne_lf _ _ (by decide)
+
+theorem countLF_eq_zero_of_not_mem : ∀ (l : List Nat), 10 ∉ l → countLF l = 0 := by
+  intro l
+  induction l with
+  | nil => intro _; rfl
+  | cons c t ih =>
+    intro h
+    simp only [List.mem_cons, not_or] at h
+    simp only [countLF]
+    rw [if_neg (fun e => h.1 e.symm), ih h.2]
+
+theorem countLF_encodeU (c : Nat) (h0 : c ≠ 10) (hlt : c < 4294967296) : countLF (encodeU c) = 0 := by
+  apply countLF_eq_zero_of_not_mem
+  intro hm
+  unfold encodeU at hm
+  simp only [List.mem_map] at hm
+  obtain ⟨b, hb, hbe⟩ := hm
+  have hv : BitVec.ofNat 32 c ≠ 10#32 := by
+    intro e
+    have := congrArg BitVec.toNat e
+    simp at this
+    omega
+  apply encodeUtf8_no_lf _ hv b hb
+  apply BitVec.eq_of_toNat_eq
+  simpa using hbe
+
+theorem readUC_lt : ∀ (len : Nat) (p : List Nat) (c : Nat), c < 4294967296 → readUC p len c < 4294967296 := by
+  intro len
+  induction len with
+  | zero => intro p c h; simpa [readUC] using h
+  | succ k ih =>
+    intro p c h
+    cases p with
+    | nil => simp [readUC]
+    | cons b rest =>
+      simp only [readUC]
+      split
+      · exact ih _ _ (Nat.mod_lt _ (by decide))
+      · decide
+
+theorem countLF_take_ucn {t : List Nat} {len : Nat} (hlen : 1 ≤ len) (hr : readUC t len 0 ≠ 0) :
+    countLF (t.drop len) = countLF t := by
+  rcases readUC_ne_zero len t 0 hr with h0 | ⟨_, hall⟩
+  · omega
+  · have h1 := countLF_take_drop t len
+    have h2 : countLF (t.take len) = 0 := by
+      apply countLF_eq_zero_of_not_mem
+      intro hm
+      have := hall 10 hm
+      simp [isXDigitN, LexChar.isXDigit, LexChar.isDigit] at this
+    omega
+
+theorem convUCAux_count : ∀ (fuel : Nat) (l r : List Nat), convUCAux fuel l = .ok r → countLF r = countLF l := by
+  intro fuel l
+  induction fuel, l using convUCAux.induct with
+  | case1 p => intro r h; simp [convUCAux] at h; rw [h]
+  | case2 n => intro r h; simp [convUCAux] at h; rw [← h]
+  | case3 fuel => intro r h; simp [convUCAux] at h
+  | case4 fuel c t hc ih =>
+    intro r h
+    unfold convUCAux at h
+    simp only [if_true, hc, ne_eq, not_false_eq_true, and_self] at h
+    cases hq : convUCAux fuel (List.drop 4 t) with
+    | error e => rw [hq] at h; simp [Except.map] at h
+    | ok r' =>
+      rw [hq] at h; simp only [Except.map] at h
+      injection h with h; subst h
+      rw [countLF_append, countLF_encodeU _ hc.2.2 (readUC_lt _ _ _ (by decide)), ih _ hq,
+        countLF_take_ucn (by omega) hc.2.1]
+      simp [countLF, hc.1]
+  | case5 fuel c t hn hc ih =>
+    intro r h
+    unfold convUCAux at h
+    simp only [if_true, hc, ne_eq, not_false_eq_true, and_self] at h
+    rw [if_neg (by omega)] at h
+    cases hq : convUCAux fuel (List.drop 8 t) with
+    | error e => rw [hq] at h; simp [Except.map] at h
+    | ok r' =>
+      rw [hq] at h; simp only [Except.map] at h
+      injection h with h; subst h
+      rw [countLF_append, countLF_encodeU _ hc.2.2 (readUC_lt _ _ _ (by decide)), ih _ hq,
+        countLF_take_ucn (by omega) hc.2.1]
+      simp [countLF, hc.1]
+  | case6 fuel c t hn1 hn2 hc ih =>
+    intro r h
+    unfold convUCAux at h
+    simp only [if_true, hn1, hn2, if_false, hc] at h
+    cases hq : convUCAux fuel (c :: t) with
+    | error e => rw [hq] at h; simp [Except.map] at h
+    | ok r' =>
+      rw [hq] at h; simp only [Except.map] at h
+      injection h with h; subst h
+      simp [countLF, ih _ hq]
+  | case7 fuel c t hn1 hn2 hn3 ih =>
+    intro r h
+    unfold convUCAux at h
+    simp only [if_true, hn1, hn2, hn3, if_false] at h
+    cases hq : convUCAux fuel t with
+    | error e => rw [hq] at h; simp [Except.map] at h
+    | ok r' =>
+      rw [hq] at h; simp only [Except.map] at h
+      injection h with h; subst h
+      simp [countLF, ih _ hq]
+  | case8 fuel a rest ha ih =>
+    intro r h
+    unfold convUCAux at h
+    simp only [ha, if_false] at h
+    cases hq : convUCAux fuel rest with
+    | error e => rw [hq] at h; simp [Except.map] at h
+    | ok r' =>
+      rw [hq] at h; simp only [Except.map] at h
+      injection h with h; subst h
+      simp [countLF, ih _ hq]
+
+theorem convUC_count (l r : List Nat) (h : convUC l = .ok r) : countLF r = countLF l := convUCAux_count _ _ _ h
+
+/-- for a file without NUL bytes the last line of the text is the last line of the file -/
+theorem lastLine_eq (bytes : List Nat) (h : 0 ∉ bytes) : lastLine bytes = terminators (readFile bytes) + 1 := by
+  obtain ⟨t, ht, _⟩ := phases_ends bytes h
+  unfold lastLine
+  rw [ht]
+  simp only
+  unfold phases at ht
+  rw [convUC_count _ _ ht, text_lines bytes h]
 
 end ChibiVerif.LexTotal
